@@ -1,0 +1,34 @@
+// Copyright 2021 TiKV Project Authors.
+//
+// Licensed under the Apache License, Version 2.0 (the "License");
+// you may not use this file except in compliance with the License.
+// You may obtain a copy of the License at
+//
+//     http://www.apache.org/licenses/LICENSE-2.0
+//
+// Unless required by applicable law or agreed to in writing, software
+// distributed under the License is distributed on an "AS IS" BASIS,
+// See the License for the specific language governing permissions and
+// limitations under the License.
+
+//go:build verif
+// +build verif
+
+// Machine-checked contracts for the built-in schedulers (checked by /verif/govc; comment-only file).
+package schedulers
+
+//@ opaque (*balancePlan).shouldBalance, github.com/tikv/pd/server/schedule/filter::NewPlacementSafeguard, github.com/tikv/pd/server/schedule/filter::NewRegionScoreFilter, github.com/tikv/pd/server/schedule/filter::NewSpecialUseFilter, github.com/tikv/pd/server/schedule/filter::RegionScoreComparer, github.com/tikv/pd/server/schedule/operator::CreateMovePeerOperator, (*balanceRegionScheduler).GetName
+//@ pure sid(s *core.StoreInfo) = ite(s.meta == nil, 0, s.meta.Id)
+//@ pure sstate(s *core.StoreInfo) = ite(s.meta == nil, 0, s.meta.State)
+
+// balance-region: the peer is moved (add, then remove) from the source store to a store handed out by the cluster
+// view that is Up and holds no peer of the region - in particular not the source itself - keeping the peer's role.
+//@ func (*balanceRegionScheduler).transferPeer
+//@   props C11
+//@   dispatch Filter.Target passT
+//@   requires s != nil && plan != nil && plan.cluster != nil && plan.region != nil && plan.region.meta != nil && plan.source != nil && nonnil(plan.region.meta.Peers) && (forall k :: {plan.region.meta.Peers[k]} 0 <= k && k < len(plan.region.meta.Peers) ==> allocated(plan.region.meta.Peers[k]))
+//@   loop 1 modifies plan.target, ghost evres
+//@   at Sort 1 after assert [candidates-are-up-stores-without-a-peer] forall i :: {r0.Stores[i]} 0 <= i && i < len(r0.Stores) ==> r0.Stores[i] != nil && ufb("clusterStore", plan.cluster, r0.Stores[i]) && sstate(r0.Stores[i]) == 0 && !hasPeerOn(plan.region, sid(r0.Stores[i]))
+//@   at CreateMovePeerOperator 1 assert [moves-to-an-up-store-without-a-peer] arg5 != nil && arg5.StoreId == sid(plan.target) && ufb("clusterStore", plan.cluster, plan.target) && sstate(plan.target) == 0 && !hasPeerOn(plan.region, arg5.StoreId) && arg2 == plan.region
+//@   at CreateMovePeerOperator 1 assert [from-the-source-keeping-the-role] callres("GetStorePeer", 1) != nil ==> arg4 == sid(plan.source) && arg5.Role == callres("GetStorePeer", 1).Role && arg5.StoreId != arg4
+//@   modifies *
